@@ -299,7 +299,12 @@ func (cfg *Config) getCertDuringHandshake(ctx context.Context, hello *tls.Client
 	// strategy for obtaining certificate during handshake.
 	certLoadWaitChansMu.Lock()
 	wait, ok := certLoadWaitChans[name]
-	if ok {
+	if ok && ctx.Value(certLoadWaitChanCtxKey) == wait {
+		// we are being re-entered by the very goroutine that registered this channel (it has
+		// been waiting for another goroutine's obtain/renew in the meantime); waiting on our
+		// own channel could only end by timing out
+		certLoadWaitChansMu.Unlock()
+	} else if ok {
 		// another goroutine is already loading the cert; just wait and we'll get it from the in-memory cache
 		certLoadWaitChansMu.Unlock()
 
@@ -320,6 +325,9 @@ func (cfg *Config) getCertDuringHandshake(ctx context.Context, hello *tls.Client
 		wait = make(chan struct{})
 		certLoadWaitChans[name] = wait
 		certLoadWaitChansMu.Unlock()
+
+		// remember that this channel is ours, in case we come back here before we are done
+		ctx = context.WithValue(ctx, certLoadWaitChanCtxKey, wait)
 
 		// unblock others and clean up when we're done
 		defer func() {
@@ -1013,6 +1021,10 @@ func clientHelloWithoutConn(hello *tls.ClientHelloInfo) serializableClientHello 
 }
 
 type helloInfoCtxKey string
+
+// certLoadWaitChanCtxKey is the context key under which the goroutine that is loading
+// a certificate during a handshake remembers the wait channel it registered.
+const certLoadWaitChanCtxKey helloInfoCtxKey = "certmagic:certLoadWaitChan"
 
 // ClientHelloInfoCtxKey is the key by which the ClientHelloInfo can be extracted from
 // a context.Context within a DecisionFunc. However, be advised that it is best practice
